@@ -796,7 +796,7 @@ void run_model(const std::string & tn, const Alphabet<M> & A, bool do_vv = true,
       k = other;
       c.require("cast<Scalar>: original untouched by writing the cast", fingerprint(m) == fp);
     }
-    x.un(c, m, a, other);
+    x.un(c, m, a, other, A.shape[i]);
   });
 }
 
@@ -967,13 +967,18 @@ struct SubExtra
   void vv(A &&...) const
   {}
   template<typename Tg>
-  void un(mc::Case & c, const M & s, const Tg &, const M &) const
+  void un(mc::Case & c, const M & s, const Tg &, const M &, int mask) const
   {
-    // constructor: fixed dims are reported sorted, origin and value as given
-    bool sorted = true;
-    for (Eigen::Index i = 1; i < s.fixed_dims().size(); ++i)
-      if (s.fixed_dims()(i - 1) >= s.fixed_dims()(i)) sorted = false;
-    c.require("sub: fixed_dims strictly increasing", sorted);
+    // the object reports exactly the requested set of fixed dimensions (shape class = subset mask); the order in
+    // which fixed_dims() lists them is not part of the statement and not judged
+    int got = 0;
+    bool ok = true;
+    for (Eigen::Index i = 0; i < s.fixed_dims().size(); ++i) {
+      const int f = s.fixed_dims()(i);
+      if (f < 0 || f >= D || ((got >> f) & 1)) ok = false;
+      else got |= 1 << f;
+    }
+    c.require("sub: fixed_dims() is the requested set", ok && got == mask);
     c.outcome(s.fixed_dims().size() == 0 ? "no fixed dim" : (s.fixed_dims().size() == D ? "all dims fixed" : "some dims fixed"));
     c.outcome(fingerprint(s.m()) == fingerprint(s.m0()) ? "m=m0" : "m!=m0");
   }
